@@ -175,6 +175,7 @@ func (e *Exec) mergeGroup(baseLen int, g []Outcome) (Outcome, bool) {
 	st.PC = append([]*Term{}, g[0].St.PC[:baseLen]...)
 	st.PC = append(st.PC, ts.Or(m.conds...))
 	st.Notes = append([]string{}, g[0].St.Notes...)
+	st.SplitTag = g[0].St.SplitTag
 	return Outcome{Kind: OutReturn, St: st, Ret: ret}, true
 }
 
